@@ -22,7 +22,7 @@
  *
  * compile-time parameters (runner): TT 0=BST 1=RB 2=AVL, H, OP (insert/remove/lookup/foreach/clear), PPOS, HIT, REMCASE,
  *   NEWMODE 0=p_tree_new 1=p_tree_new_with_data, p_tree_new_full with 2=both notifiers 3=key notifier only 4=value notifier only
- *   5=symbolic choice; NULLTOK (which key / value token is the NULL pointer), ALLOC_FAIL (the node allocation of the insert fails),
+ *   5=symbolic choice; REPLACE_SYM (replace: identity of the new key / value symbolic: fresh, the stored one, one stored elsewhere); NULLTOK (which key / value token is the NULL pointer), ALLOC_FAIL (the node allocation of the insert fails),
  *   CMP_MAG n (comparator returns -n/0/n) or SYM_MAG (symbolic magnitude), FIXA(i) (optional: fixed colour / balance factor
  *   of chosen positions), CHK_LOOKUP_BEFORE / CHK_LOOKUP_AFTER (lookup of an arbitrary key before / after the step), FREE_AFTER (p_tree_free after the
  *   step + exactly-once accounting), CHK_MAP / CHK_BAL / CHK_OWN assertion groups (C12 / C13 / C14). */
@@ -162,15 +162,16 @@ static void build_pre_state(void) {
 }
 
 static int op_rank;   /* rank of the operation key */
+/* objects handed to the tree by the operation under test, per token (an object inserted twice is owed two notifications:
+ * one per stored occurrence, each at the call where that occurrence leaves the tree) */
+static unsigned char add_k[NK + 1][IDMAX + 2], add_v[NK + 1][IDMAX + 2];
 /* exactly-once accounting over the whole run (operation + p_tree_free) */
 static void check_notifier_counts(int leave_rank, int leave_id, int after_free) {
   int r, id;
   for (r = 1; r <= NK; r++)
     for (id = 1; id <= 2; id++) {
-      int stored_ever = (id == ID_OLD) ? ((r % 2 == 0) && pres[sk_pos(r / 2)]) : 0;
-#if OP == OP_INSERT && !defined(ALLOC_FAIL)
-      if (id == ID_NEW && r == op_rank) stored_ever = 1;
-#endif
+      int stored_ever = (id == ID_OLD) ? ((r % 2 == 0) && pres[sk_pos(r / 2)]) : 0;   /* pre-state occurrence */
+      int nk = stored_ever + add_k[r][id], nv = stored_ever + add_v[r][id];               /* occurrences ever stored */
       int leaves_now = (r == leave_rank && id == leave_id);
 #if OP == OP_CLEAR
       leaves_now = stored_ever;
@@ -179,12 +180,12 @@ static void check_notifier_counts(int leave_rank, int leave_id, int after_free) 
        * never touched: any access would be a pointer violation) */
       if (has_kn) {
         VASSERT(kd[0][r][id] == (leaves_now ? 1 : 0), "key notifier during the operation: exactly the key that leaves the tree, once");
-        if (after_free) VASSERT(kd[0][r][id] + kd[1][r][id] == (stored_ever ? 1 : 0), "every key ever stored is destroyed exactly once overall");
+        if (after_free) VASSERT(kd[0][r][id] + kd[1][r][id] == nk, "every key ever stored is destroyed exactly once overall (once per insertion of the object)");
       } else
         VASSERT(kd[0][r][id] + kd[1][r][id] == 0, "no key notifier given: none called");
       if (has_vn) {
         VASSERT(vd[0][r][id] == (leaves_now ? 1 : 0), "value notifier during the operation: exactly the value that leaves the tree, once");
-        if (after_free) VASSERT(vd[0][r][id] + vd[1][r][id] == (stored_ever ? 1 : 0), "every value ever stored is destroyed exactly once overall");
+        if (after_free) VASSERT(vd[0][r][id] + vd[1][r][id] == nv, "every value ever stored is destroyed exactly once overall (once per insertion of the object)");
       } else
         VASSERT(vd[0][r][id] + vd[1][r][id] == 0, "no value notifier given: none called");
     }
@@ -291,8 +292,24 @@ void harness(void) {
   check_notifier_counts(0, 0, 0);
 #endif
 #elif OP == OP_INSERT
-  p_tree_insert(tree, KEY(kpos, ID_NEW), VAL(kpos, ID_NEW));
-  exp_pres[kpos] = 1; exp_key[kpos] = KEY(kpos, ID_NEW); exp_val[kpos] = VAL(kpos, ID_NEW);
+  ppointer newkey = KEY(kpos, ID_NEW), newval = VAL(kpos, ID_NEW);
+#if defined(REPLACE_SYM) && defined(PPOS) && HIT
+  /* replace: the identity of the new pair is symbolic -- the new value is a fresh object, the very object already stored
+   * under this key, or an object stored under ANOTHER key (shared value); the new key is a fresh object or the stored key
+   * object itself.  Whatever is chosen, the occurrence that leaves the tree is notified at this call, the new occurrence
+   * when it leaves (p_tree_free): one notification per insertion. */
+  int nvsel = ND_RANGE(0, 2), nksel = ND_RANGE(0, 1), orank = ND_RANGE(1, NK);
+  if (nvsel == 2) VASSUME(orank != kpos && exp_pres[orank]);
+  if (nksel == 1) newkey = KEY(kpos, ID_OLD);
+  if (nvsel == 1) newval = VAL(kpos, ID_OLD);
+  if (nvsel == 2) newval = VAL(orank, ID_OLD);
+  add_k[kpos][nksel == 1 ? ID_OLD : ID_NEW]++;
+  if (nvsel == 2) add_v[orank][ID_OLD]++; else add_v[kpos][nvsel == 1 ? ID_OLD : ID_NEW]++;
+#else
+  add_k[kpos][ID_NEW]++; add_v[kpos][ID_NEW]++;
+#endif
+  p_tree_insert(tree, newkey, newval);
+  exp_pres[kpos] = 1; exp_key[kpos] = newkey; exp_val[kpos] = newval;
   exp_n = pre_n + (was ? 0 : 1);
   check_post_state();
 #ifdef CHK_OWN
@@ -348,6 +365,14 @@ void harness(void) {
 #elif OP == OP_INSERT
 #if HIT
   VWITNESS("replace of a stored key");
+#ifdef REPLACE_SYM
+  if (nvsel == 0 && nksel == 0) VWITNESS("replace by a fresh key object and a fresh value");
+  if (nvsel == 1) VWITNESS("replace by the very value object already stored under the key");
+  if (nksel == 1) VWITNESS("replace by the stored key object itself");
+#if PPOS > 1
+  if (nvsel == 2) VWITNESS("replace by a value object that is also stored under another key");
+#endif
+#endif
 #elif defined(ALLOC_FAIL)
   VWITNESS("insert of a new key whose node allocation fails");
 #else
